@@ -6,10 +6,10 @@
 use crate::core::Local;
 use crate::gen::rule::{gen_interleaving, gen_tie, rand_alt};
 use crate::gen::zone::{gen_leaps, gen_zone, rule_only, RuleMode, ZoneCfg};
-use crate::mon::{c01, c02, c03, c04, c05, c12, c13, c14, c16, c18};
+use crate::mon::{c01, c02, c03, c04, c05, c11, c12, c13, c14, c16, c18};
 use crate::util::rng::Rng;
 
-pub const PROPS: [&str; 12] = ["C01", "C02", "C03", "C04", "C05", "C06", "C12", "C13", "C14", "C16", "C17", "C18"];
+pub const PROPS: [&str; 13] = ["C01", "C02", "C03", "C04", "C05", "C06", "C11", "C12", "C13", "C14", "C16", "C17", "C18"];
 
 /// date-time fields straight from the tape: every field a little beyond its valid range, the year anywhere in i32
 fn fields(rng: &mut Rng) -> (i32, u8, u8, u8, u8, u8, u32) {
@@ -108,6 +108,34 @@ pub fn run(prop: &str, data: &[u8]) -> Local {
                 }
             };
             c05::check_zone(&mut l, which, &z, rng, 6, 3, 24);
+        }
+        "C11" => {
+            static PRE: std::sync::OnceLock<c11::Pre> = std::sync::OnceLock::new();
+            let pre = PRE.get_or_init(|| c11::Pre::new(crate::model::rule::DayTables::new()));
+            for _ in 0..8 {
+                c11::fuzz_case(&mut l, pre, rng);
+            }
+        }
+        "C12" if sel % 4 == 3 => {
+            // the top of the i64 range (registered workload 3)
+            let mut v: Vec<(i64, i32)> = vec![];
+            let mut c: i32 = if rng.chance(1, 2) { 1 } else { -1 };
+            let mut li: i64 = rng.range(0, 1_000_000);
+            for _ in 0..rng.below(5) {
+                v.push((li, c));
+                li += rng.range(2_419_199, 90_000_000);
+                c += if rng.chance(1, 2) { 1 } else { -1 };
+            }
+            if v.is_empty() {
+                c = if rng.chance(1, 2) { 1 } else { -1 };
+            }
+            v.push((i64::MAX - rng.below(6) as i64, c));
+            let t = crate::model::leap::LeapTable(v);
+            for _ in 0..3 {
+                let tt = i64::MAX - rng.below(8) as i64;
+                let fixed = rng.chance(1, 2);
+                c12::check_edge(&mut l, &t, tt, fixed);
+            }
         }
         "C12" => {
             let mut t = gen_leaps(rng, true);
